@@ -19,7 +19,11 @@ DocsSmall == {
   Doc("P", <<>>),                                                   \* no tasks
   Doc(" ", <<T("a", <<>>)>>),                                       \* blank epic title
   Doc("P", <<T(" ", <<>>)>>),                                       \* blank task title
-  [title |-> "P", body |-> " ", tasks |-> <<T("a", <<>>)>>]          \* blank body
+  [title |-> "P", body |-> " ", tasks |-> <<T("a", <<>>)>>],         \* blank body
+  Doc("UBLANK", <<T("a", <<>>)>>),                                  \* epic title of Unicode whitespace only
+  Doc("P", <<T("UBLANK", <<>>)>>),                                  \* task title of Unicode whitespace only
+  Doc("P", <<[title |-> "a", body |-> "UBLANK", after |-> <<>>]>>),  \* task body of Unicode whitespace only
+  Doc("P", <<T("a", <<>>), T("b", <<"UBLANK">>)>>)                  \* blank after reference
 }
 NoDocs == {}
 
